@@ -365,6 +365,9 @@ func runC16(c *eng.Ctx) {
 	// ---- R15.8 (shared) the configuration keys this property's switches hang on reach their fields
 	ruleConfigWiring(c, "R15.8")
 
+	c.Rule("R14.9", "K1")
+	// PENDING-F67 ruleRawPayloadWaivesExpectedOffset(c)
+
 }
 
 // ruleInternalPublishesWaive (R16.9, shared with C11 and C18): a PublishRequest that the server builds itself (cursors,
